@@ -54,7 +54,7 @@ class Smt:
         k = t[0]
         if k == "c":
             return {"int": "int", "bool": "bool"}.get(t[1], "v")
-        if k == "disc":
+        if k in ("disc", "asint"):
             return "int"
         if k == "op":
             if t[1] in ("Eq", "Ne", "Lt", "Le", "Gt", "Ge"):
@@ -83,6 +83,8 @@ class Smt:
 
     def _v(self, t):
         k = t[0]
+        if k == "asint":
+            return self.v(t[1])
         kd = self.kind(t)
         if kd == "int":
             i = self.i(t)
@@ -171,6 +173,8 @@ class Smt:
             return z3.IntVal(t[2])
         if k == "disc":
             return self.disc(self.v(t[1]))
+        if k == "asint":
+            return self.i(t[1]) if self.kind(t[1]) == "int" else self.intval(self.v(t[1]))
         if k == "op" and t[1] in ("Add", "AddUnchecked"):
             return self.i(t[2]) + self.i(t[3])
         if k == "op" and t[1] in ("Sub", "SubUnchecked"):
@@ -194,7 +198,11 @@ class Smt:
                 a, c = self.b(t[2]), self.b(t[3])
             else:
                 a, c = self.v(t[2]), self.v(t[3])
-            return {"Eq": a == c, "Ne": a != c, "Lt": a < c, "Le": a <= c, "Gt": a > c, "Ge": a >= c}[op]
+            if op == "Eq":
+                return a == c
+            if op == "Ne":
+                return a != c
+            return {"Lt": lambda: a < c, "Le": lambda: a <= c, "Gt": lambda: a > c, "Ge": lambda: a >= c}[op]()
         if k == "op1" and t[1] == "Not":
             return z3.Not(self.b(t[2]))
         if k == "ite":
